@@ -49,7 +49,7 @@ func sm2pkeLibEncrypt(st Step, msg []byte) ([]byte, sm2pkeOpt, error) {
 	priv := sm2pkeKey(st)
 	o := sm2pkeOpt{st.Str("enc"), st.Str("form"), st.Str("order"), st.Str("how")}
 	rd := io.MultiReader(bytesReader(st.Hex("rnd")), mrand.New(mrand.NewSource(int64(len(msg)))))
-	ct, err := o.encrypt(rd, &priv.PublicKey, msg)
+	ct, err := o.encrypt(rd, ecPubSlot(&priv.PublicKey), msg) // one long-lived public key struct, reloaded per call
 	return ct, o, err
 }
 
